@@ -223,7 +223,15 @@ def check(ctx):
             recv = f.describe_origin(f.origin(c.args[0]), deep=2) if c.args else ""
             if "type_mappings" in recv and "HashMap" in (c.path + (c.self_ty or "")):
                 if short_path(c.path) == "HashMap::get":
-                    r3.ok("%s: type_mappings.get(..)" % short_path(fid))
+                    # ... with the type's own name as the key: the function's name parameter or the payload of TypeStructure::Custom, unaltered
+                    # (a key that was split / trimmed / re-cased first no longer finds `DateTime<Utc>`-style entries, or finds entries of other types)
+                    ko = f.origin(c.args[1]) if len(c.args) > 1 else ("unknown",)
+                    while ko[0] == "proj" or (ko[0] == "call" and ko[1].args and strip_generics(ko[1].path) in ("std::ops::Deref::deref", "std::string::String::as_str", "std::convert::AsRef::as_ref", "std::borrow::Borrow::borrow")):
+                        ko = ko[1] if ko[0] == "proj" else f.origin(ko[1].args[0])
+                    if ko[0] == "arg":
+                        r3.ok("%s: type_mappings.get(<the type's name>)" % short_path(fid))
+                    else:
+                        r3.bad(V(r3.id, fid, "mapping-key-derived", "the key looked up in type_mappings is not the type's name itself but %s" % f.describe_origin(ko, deep=2)[:120], c.file, c.line))
                 else:
                     r3.bad(V(r3.id, fid, "mapping-access:%s" % short_path(c.path), "type_mappings is consulted through %s (not an exact-key lookup)" % c.path, c.file, c.line))
     r3.require_floor(3, "mapping lookups")
@@ -302,7 +310,13 @@ def check(ctx):
     check_emitter_reads_used_set(P, r6)
     for v_ in r6.violations:
         v_.rule = r6.id
-    r6.require_floor(2, "generators")
+    # "types not named in the mapping are rendered exactly as without it": registering mappings with the analyzer must not make type discovery
+    # skip anything but the mapped names themselves (shared with C09-D4 / C07-D3)
+    from c09 import check_harvest_reaches_record
+    check_harvest_reaches_record(P, r6)
+    for v_ in r6.violations:
+        v_.rule = r6.id
+    r6.require_floor(3, "generators + discovery")
     rules.append(r6)
 
     return finish(
